@@ -735,7 +735,7 @@ def run(ctx):
 
     def one(item):
         name, sc, flags = item
-        return common.compare_streams(ctx, sc, h_noalign if " ultra\n" in sc else h, d, "scale." + name, timeout=600)
+        return common.compare_streams(ctx, sc, h_noalign if " ultra" in sc else h, d, "scale." + name, timeout=600)
 
     results = common.pmap(one, scripts)
     evals, nontrivial = 0, set()
